@@ -152,7 +152,7 @@ METHODS = {
 N_PARAMS = {"run_key_value": 2, "run_index_value": 2, "map_key": 1, "map_value": 1}
 
 
-def run_method(S, name):
+def run_method(S, name, dup=False):
     cands = S.prog.find(None, "Runner", name)
     if len(cands) != 1:
         raise Unencodable(f"Runner::{name}: {len(cands)} MIR bodies")
@@ -163,7 +163,7 @@ def run_method(S, name):
     cells = []
     for i in range(N_PARAMS[name]):
         c = f"variables[{i}]"
-        st.heap[c] = ex.fresh("parser::ast::Ident", f"ident{i}")
+        st.heap[c] = ex.fresh("parser::ast::Ident", "ident0" if dup else f"ident{i}")     # dup: `|x, x|`
         cells.append(c)
     st.heap["variables"] = Seq("[Ident]", cells)
     st.heap["*self"] = Agg("compiler::function::closure::Runner<'_, T>", {0: Ref("&[parser::ast::Ident]", "variables", ()), 1: ex.fresh("T", "runner")})
@@ -243,6 +243,27 @@ def obligations(S):
                 okgood = z3.Implies(v.is_variant(rv, "Ok", ret_ty), stored_ok)
             add("C06", "body-return-is-iteration-value", z3.Implies(err_is(v, r, "Return"), good))
             add("C06", "body-ok-is-iteration-value", z3.Implies(is_ok(v, r), okgood))
+    # ---- C13 again with both parameters carrying the same name (`|x, x|` is accepted by the compiler)
+    for name in ("run_key_value", "run_index_value"):
+        ex, paths, f = run_method(S, name, dup=True)
+        seen = 0
+        for pi, p in enumerate(paths):
+            if p.outcome.kind != "ret":
+                continue
+            bodies = [e for e in p.st.trace if e["kind"] == "body"]
+            if len(bodies) != 1:
+                continue
+            seen += 1
+            v = V(ex, p.st)
+            named = z3.Not(z3.Bool("is_empty(deref(&ident0))"))
+            final = vars_lookup(ex, p.st, "ident0")
+            init = ex.fresh(OPT_VAL, "vars0[ident0]")
+            role = f"C13:Runner::{name}:same-name-params-restored"
+            o = Obl(role, {"C13"}, f"{role}#path{pi}", p, z3.Implies(named, v.same(final, init)), {"final": ex.val_name(p.st, final), "initial": "vars0[ident0]"})
+            o.ex = ex
+            obls.append(o)
+        if not seen:
+            raise Unencodable(f"Runner::{name} with equal parameter names: no returning path (vacuous)")
     return obls, sorted(set(fns))
 
 
@@ -280,6 +301,12 @@ def runner_witness(role):
     m = re.match(r"^(C\d+):Runner::(\w+):(.*)$", role)
     prop, method, tag = m.group(1), m.group(2), m.group(3)
     call, params, kind = CALLS[method]
+    if tag == "same-name-params-restored":
+        out = []
+        for body in ("{ .seen = x }", "{ .seen = x; if .yes == true { return 1 }; 2 }"):
+            src = f'x = "outer"\n.r = {call} -> |x, x| {body}\n.x_after = x\n'
+            out.append(({"source": src, "event": {"yes": True}}, {"outcome": "ok", "event_has": ["seen"], "event_eq": {"x_after": {"Bytes": "outer"}}}))
+        return out
     tail = '"s"' if kind == "string" else "6"
     if prop == "C13":
         m2 = re.match(r"param(\d)-restored:body-(\w+)", tag)
